@@ -1,22 +1,18 @@
 (* C15 property theorems: statements only; every proof is [exact lemma].
    [go_safe_b l] (Diag.v) is the explicit boolean hypothesis of the partial theorems: in every
-   quoted string of [l] no raw control character (below U+0020) and no braced unicode escape; in
-   every block string no escaped triple quote, no quote that the delimiter re-scan mistakes for
-   a delimiter, at least one non-blank line (or no text at all), well-formed UTF-8, and the Go
-   lexer delimits the token as the specification does. *)
+   quoted string of [l] no braced unicode escape; in every block string no quote that the
+   delimiter re-scan mistakes for a delimiter, well-formed UTF-8, and the Go lexer delimits the
+   token as the specification does.  (Before the repairs it also excluded raw control characters,
+   escaped triple quotes and all-blank block strings; see the c15_history_ theorems.) *)
 From Gv Require Import lib.Bytes lib.Gql C15.Unicode C15.Model C15.Spec C15.Diag
-  C15.ProofsBlock C15.ProofsJson C15.ProofsFwd C15.Proofs.
+  C15.ProofsBlock C15.ProofsJson C15.ProofsFwd C15.History C15.Proofs.
 From Coq Require Import ZArith.
 
+(* still refuted after the repairs: a braced unicode escape is copied into the JSON as it is *)
 Theorem c15_vars_valid_json_refuted :
   exists l, lit_valid l /\ json_denote (value_to_json [] l) = JInvalid.
 Proof. exact vars_valid_json_refuted_proof. Qed.
 Print Assumptions c15_vars_valid_json_refuted.
-
-Theorem c15_vars_valid_json_refuted_brace :
-  exists l, lit_valid l /\ has_raw_ctl [92; 117; 123; 52; 49; 125] = false /\ json_denote (value_to_json [] l) = JInvalid.
-Proof. exact vars_valid_json_refuted_brace_proof. Qed.
-Print Assumptions c15_vars_valid_json_refuted_brace.
 
 Theorem c15_vars_valid_json_partial : forall vs e l,
   vars_framed vs e -> lit_valid l -> go_safe_b l = true ->
@@ -30,29 +26,44 @@ Theorem c15_value_preserved_partial : forall vs e l,
 Proof. exact value_preserved_partial_proof. Qed.
 Print Assumptions c15_value_preserved_partial.
 
-Theorem c15_value_preserved_refuted_escaped_triple_quote :
-  lit_valid w_esc_triple /\
-  exists d, json_denote (value_to_json [] w_esc_triple) = JOk d /\ dval_eqb d (gql_denote [] w_esc_triple) = false.
-Proof. exact value_preserved_refuted_esc_triple_proof. Qed.
-Print Assumptions c15_value_preserved_refuted_escaped_triple_quote.
-
+(* still refuted after the repairs *)
 Theorem c15_value_preserved_refuted_quote_next_to_whitespace :
   lit_valid w_quote_ws /\
   exists d, json_denote (value_to_json [] w_quote_ws) = JOk d /\ dval_eqb d (gql_denote [] w_quote_ws) = false.
 Proof. exact value_preserved_refuted_quote_ws_proof. Qed.
 Print Assumptions c15_value_preserved_refuted_quote_next_to_whitespace.
 
-Theorem c15_value_preserved_refuted_blank_block :
-  lit_valid w_blank /\
-  exists d, json_denote (value_to_json [] w_blank) = JOk d /\ dval_eqb d (gql_denote [] w_blank) = false.
-Proof. exact value_preserved_refuted_blank_proof. Qed.
-Print Assumptions c15_value_preserved_refuted_blank_block.
-
+(* strengthened by c15_fix_block-blank-only and c15_fix_block-escaped-triple-quote: one hypothesis left *)
 Theorem c15_block_value_agrees : forall raw,
-  has_escaped_triple raw = false -> rescan_exact raw = true -> blank_only raw = false ->
-  block_string_value raw = spec_block_value raw.
+  rescan_exact raw = true -> block_string_value raw = spec_block_value raw.
 Proof. exact block_value_agrees. Qed.
 Print Assumptions c15_block_value_agrees.
+
+(* historical: the functions the repairs replaced (History.v) *)
+Theorem c15_history_vars_valid_json_refuted_before_fix :
+  lit_valid (VStr [97; 9; 98] false) /\ json_denote (string_to_json_v0 [97; 9; 98] false) = JInvalid.
+Proof. exact hist_tab_invalid. Qed.
+Print Assumptions c15_history_vars_valid_json_refuted_before_fix.
+
+Theorem c15_history_escaped_triple_quote_refuted_before_fix :
+  lit_valid (VStr [97; 92; 34; 34; 34; 98] true) /\
+  exists d, json_denote (string_to_json_v0 [97; 92; 34; 34; 34; 98] true) = JOk d
+            /\ dval_eqb d (gql_denote [] (VStr [97; 92; 34; 34; 34; 98] true)) = false.
+Proof. exact hist_escaped_triple_differs. Qed.
+Print Assumptions c15_history_escaped_triple_quote_refuted_before_fix.
+
+Theorem c15_history_blank_block_refuted_before_fix :
+  lit_valid (VStr [32; 32; 32] true) /\
+  exists d, json_denote (string_to_json_v0 [32; 32; 32] true) = JOk d
+            /\ dval_eqb d (gql_denote [] (VStr [32; 32; 32] true)) = false.
+Proof. exact hist_blank_differs. Qed.
+Print Assumptions c15_history_blank_block_refuted_before_fix.
+
+Theorem c15_history_default_null_refuted_before_fix :
+  exists b, default_extract_v0 [] [118; 48] 1 VNull = Some b
+            /\ exists d, json_denote b = JOk d /\ dval_eqb d (default_denote 1 (gql_denote [] VNull)) = false.
+Proof. exact hist_default_null_wrapped. Qed.
+Print Assumptions c15_history_default_null_refuted_before_fix.
 
 Theorem c15_extract_literal : forall vs e l,
   vars_framed vs e -> lit_valid l -> go_safe_b l = true -> (forall n, l <> VVar n) ->
@@ -66,11 +77,11 @@ Theorem c15_default_preserved_partial : forall vs e n d,
 Proof. exact default_preserved_partial_proof. Qed.
 Print Assumptions c15_default_preserved_partial.
 
-Theorem c15_default_null_refuted :
-  exists b, default_extract [] v0 1 VNull = Some b
-            /\ exists d, json_denote b = JOk d /\ dval_eqb d (default_denote 1 (gql_denote [] VNull)) = false.
-Proof. exact default_null_refuted_proof. Qed.
-Print Assumptions c15_default_null_refuted.
+(* since c15_fix_default-null-list-wrapped, for every list depth *)
+Theorem c15_default_null_stays_null : forall vs n w,
+  var_get n vs = None -> default_extract vs n w VNull = Some lit_null.
+Proof. exact default_null_stays_null_proof. Qed.
+Print Assumptions c15_default_null_stays_null.
 
 Theorem c15_absent_stays_absent : forall tmpl ctx u c,
   names_distinct tmpl -> In (u, c) tmpl -> ctx_get dval c ctx = None ->
